@@ -34,16 +34,19 @@ Record mstate := mkm { m_mem : memmap; m_heap : heap }.
 Section MemReader.
   Variable md5 : N -> str.
 
-  (* DocumentReader.open: policy 0 uses the cache *)
-  Definition mdoc_open (pol : N) (m : memmap) (u : N) : list N * memmap :=
+  (* DocumentReader.open: policy 0 uses the cache; parsed() runs on every open.  The cached
+     document is the live object, so parsed() is handed a document earlier opens already
+     patched: with such a cache only idempotent parsed() edits leave a warm client like an
+     uncached one (the harness uses idempotent edits here). *)
+  Definition mdoc_open (pol : N) (m : memmap) (u : N) : list ev * memmap :=
     if N.eqb pol 0
     then match mem_get m (mangle (md5 u) s_document) with
-         | Some _ => ([], m)
-         | None => ([u], mem_put m (mangle (md5 u) s_document) u)
+         | Some _ => ([EvParsed u], m)
+         | None => ([EvFetch u; EvParsed u], mem_put m (mangle (md5 u) s_document) u)
          end
-    else ([u], m).
+    else ([EvFetch u; EvParsed u], m).
 
-  Fixpoint mload (pol : N) (m : memmap) (us : list N) : list N * memmap :=
+  Fixpoint mload (pol : N) (m : memmap) (us : list N) : list ev * memmap :=
     match us with
     | [] => ([], m)
     | u :: us' => let (a, m1) := mdoc_open pol m u in
@@ -53,7 +56,7 @@ Section MemReader.
   (* DefinitionsReader.open for client number i (its options object is "tag i");
      result: urls fetched, the WSDL object the client holds, the outcome it observes *)
   Definition mdefs_open (w : world) (i : N) (pol : N) (unwrap : bool) (s : mstate)
-    : (list N * N * outcome) * mstate :=
+    : (list ev * N * outcome) * mstate :=
     let wr := w_docstyle w && unwrap in
     let id := mangle (md5 (w_main w)) s_wsdl in
     match (if N.eqb pol 1 then mem_get (m_mem s) id else None) with
@@ -70,7 +73,7 @@ Section MemReader.
 
   (* clients 0, 1, 2 ... over one cache instance *)
   Fixpoint mrun (w : world) (i : N) (s : mstate) (cs : list (N * bool))
-    : list (list N * N * outcome) * mstate :=
+    : list (list ev * N * outcome) * mstate :=
     match cs with
     | [] => ([], s)
     | (pol, unwrap) :: cs' =>
@@ -81,7 +84,7 @@ Section MemReader.
   (* after all the clients were built: does client j (holding object o) still find its own
      options on its WSDL object?  Not when a later client re-attached to the shared object:
      sharing one live Definitions makes that impossible by design. *)
-  Fixpoint still_own (h : heap) (j : N) (rs : list (list N * N * outcome)) : list bool :=
+  Fixpoint still_own (h : heap) (j : N) (rs : list (list ev * N * outcome)) : list bool :=
     match rs with
     | [] => []
     | (_, o, _) :: rs' =>
@@ -91,7 +94,7 @@ End MemReader.
 
 (* ---- specification and correspondence ---- *)
 Record mobs := mkmobs {
-  mo_fetched : list N; mo_transport : bool; mo_out : outcome;
+  mo_fetched : list N; mo_parsed : list N; mo_transport : bool; mo_out : outcome;
   mo_wrapped_ref : bool; mo_fp_same : bool }.
 
 (* a client is warm when an earlier client of the same policy (0 or 1) used this cache *)
@@ -117,11 +120,12 @@ Record mcase := mkmcase {
   mc_obs : list mobs;
   mc_still_own : list bool }.       (* observed after all clients were built *)
 
-Fixpoint mobs_eqb (rs : list (list N * N * outcome)) (obs : list mobs) : bool :=
+Fixpoint mobs_eqb (rs : list (list ev * N * outcome)) (obs : list mobs) : bool :=
   match rs, obs with
   | [], [] => true
   | (f, _, out) :: rs', c :: obs' =>
-      list_eqb N.eqb f (mo_fetched c) && outcome_eqb out (mo_out c) && mobs_eqb rs' obs'
+      list_eqb N.eqb (fetched_of f) (mo_fetched c) && list_eqb N.eqb (parsed_of f) (mo_parsed c)
+      && outcome_eqb out (mo_out c) && mobs_eqb rs' obs'
   | _, _ => false
   end.
 
